@@ -218,6 +218,14 @@ func (st *State) exec(fr *Frame, in ssa.Instruction) bool {
 		}
 		st.checkNonNil(p.Root, x.Pos(), "fieldaddr")
 		np := &Ptr{Kind: PObj, Root: p.Root, RootT: p.RootT, Path: p.Path + "." + f.Name(), T: f.Type()}
+		if e.isEmbeddedObject(f) {
+			// an embedded struct of the package is an object of its own (see leafLoc)
+			np = &Ptr{Kind: PObj, Root: st.ptrTerm(np), RootT: f.Type(), T: f.Type()}
+			st.nonnil[np.Root] = true
+			if st.private[p.Root] {
+				st.private[np.Root] = true
+			}
+		}
 		if at, ok := f.Type().Underlying().(*types.Array); ok {
 			// embedded array: its backing store is addressed by an injective function of the parent
 			_ = at
